@@ -2,7 +2,7 @@ NAME = 'I-loop'
 PROPERTIES = ['C15', 'C02']
 ENGINE = 'verus'
 CLASS = 'U'
-DOC = ('IndexManager::{add_to_indexes_for_insert, update_indexes_for_update} (storage database/indexes/index_maintenance.rs), the loops over the registry of '
+DOC = ('IndexManager::{add_to_indexes_for_insert, update_indexes_for_update, rebuild_indexes} (storage database/indexes/index_maintenance.rs) and check_unique_constraints_for_insert (index_manager.rs: a row is accepted iff NO in-memory UNIQUE index of the table already holds its NULL-free key), the loops over the registry of '
        'user-defined (CREATE INDEX) indexes: EVERY index registered for the table receives the per-index step - with the key built from ITS columns of the row(s) '
        'handed in, at the position handed in (update: only when old and new key differ) - and the data of every other index is left as it was. The two pieces inside the loop body '
        '- the key-building closure and the `match index_data` step - are verified on their own in unit I-maint and are elided here (R6b), replaced by calls with the contracts proved there.')
@@ -24,6 +24,11 @@ pub struct IndexMetadata { pub index_name: Str, pub table_name: Str, pub unique:
 // `metadata.table_name == table_name` (String == &str)
 #[verifier::external_body] fn str_eq(a: &Str, b: &str) -> (r: bool) ensures r == (a@ == b@) { unimplemented!() }
 #[verifier::external_body] fn key_ne(a: &Vec<SqlValue>, b: &Vec<SqlValue>) -> (r: bool) ensures r == (a@ != b@) { unimplemented!() }
+pub uninterp spec fn is_null(v: SqlValue) -> bool;
+pub open spec fn key_has_null(k: Key) -> bool { exists|j: int| 0 <= j < k.len() && is_null(#[trigger] k[j]) }
+// key_values.contains(&SqlValue::Null)
+#[verifier::external_body] fn has_null(k: &Vec<SqlValue>) -> (r: bool) ensures r == key_has_null(k@) { unimplemented!() }
+#[verifier::external_body] pub struct StorageError { e: u8 }
 
 /// the key component an index column contributes for a row (unit I-maint: key_part = named column, prefix-truncated, normalized)
 pub uninterp spec fn key_part(col: IndexColumn, schema: &TableSchema, row: Row) -> SqlValue;
@@ -85,6 +90,12 @@ impl DataMap {
         ensures forall|x: Seq<char>| #![trigger final(self).mem(x)] #![trigger final(self).has(x)] final(self).has(x) == old(self).has(x) && (x != n@ ==> final(self).mem(x) == old(self).mem(x)),
                 final(self).mem(n@) == (match old(self).mem(n@) { Some(m) => Some(ix_with(m, key_values@, row_index)), None => None::<Ix> }),
     { unimplemented!() }
+    // the `match index_data { .. }` of check_unique_constraints_for_insert with its early returns  (unit I-maint check_step: in memory, refused exactly when the index holds the key)
+    #[verifier::external_body]
+    pub fn check_step_at(&self, n: &Str, metadata: &IndexMetadata, key_values: Vec<SqlValue>) -> (r: Result<(), StorageError>)
+        requires self.has(n@),
+        ensures self.mem(n@) matches Some(m) ==> ((r is Err) <==> m.dom().contains(key_values@)),
+    { unimplemented!() }
     // the `match index_data { .. }` step of rebuild_indexes  (unit I-maint rebuild_step: whatever was there, the map becomes the mirror of the rows)
     #[verifier::external_body]
     pub fn rebuild_step_at(&mut self, n: &Str, metadata: &IndexMetadata, schema: &TableSchema, rows: &[Row])
@@ -114,6 +125,10 @@ pub open spec fn upd_effect(e: (Str, IndexMetadata), t: Seq<char>, schema: &Tabl
                    } else { Some(m) },
         None => None }
 }
+/// index entry e refuses the row: it is a UNIQUE in-memory index of the table that already holds the row's (NULL-free) key
+pub open spec fn refuses(e: (Str, IndexMetadata), t: Seq<char>, schema: &TableSchema, row: Row, data: Option<Ix>) -> bool {
+    e.1.table_name@ == t && e.1.unique && !key_has_null(key_of(e.1.columns@, schema, row)) && (data matches Some(m) && m.dom().contains(key_of(e.1.columns@, schema, row)))
+}
 pub open spec fn named(entries: Seq<(Str, IndexMetadata)>, x: Seq<char>) -> bool { exists|i: int| 0 <= i < entries.len() && (#[trigger] entries[i]).0@ == x }
 
 impl IndexManager {
@@ -122,6 +137,8 @@ impl IndexManager {
 //@@ update_indexes_for_update
 
 //@@ rebuild_indexes
+
+//@@ check_unique_constraints_for_insert
 }
 
 fn canary_insert(im: &mut IndexManager, t: &str, s: &TableSchema, row: &Row, p: usize)
@@ -252,12 +269,41 @@ OBLIGATIONS = {
     'add_to_indexes_for_insert': ['post:every_index_of_the_table_gets_the_insert_step_with_its_key__others_untouched', 'proof:loop_invariant_and_termination', 'safety:key_columns_exist'],
     'update_indexes_for_update': ['post:every_index_of_the_table_whose_key_changes_gets_the_update_step__others_untouched', 'proof:loop_invariant_and_termination', 'safety:key_columns_exist'],
 }
+ITEMS['check_unique_constraints_for_insert'] = dict(
+        file='crates/vibesql-storage/src/database/indexes/index_manager.rs', path='impl IndexManager::fn check_unique_constraints_for_insert', ret='res',
+        elide=[dict(kind='closure', index=0, expect_params='col', to='KEY_OF__row'),
+               dict(kind='match', index=0, expect_scrutinee='index_data', to='self.index_data.check_step_at(index_name, metadata, key_values)?;')],
+        rewrites=[r for r in _RW if 'get_mut' not in r[1]] + [
+            ('re', r'if let Some\(index_data\) = self\.index_data\.get\(index_name\) \{', 'if self.index_data.contains_key(index_name) {', 1),
+            ('re', r'key_values\.contains\(&SqlValue::Null\)', 'has_null(&key_values)', 1),
+        ],
+        loops={0: '''
+            invariant
+                ri__ <= self.indexes.entries().len(),
+                forall|i: int| 0 <= i < self.indexes.entries().len() ==> cols_ok((#[trigger] self.indexes.entries()[i]).1.columns@, table_schema, *row),
+                // no index visited so far refuses the row
+                forall|i: int| #![trigger self.indexes.entries()[i]] 0 <= i < ri__ ==> !refuses(self.indexes.entries()[i], table_name@, table_schema, *row, self.index_data.mem(self.indexes.entries()[i].0@)),
+            decreases self.indexes.entries().len() - ri__,
+'''},
+        contract='''
+        requires forall|i: int| 0 <= i < self.indexes.entries().len() ==> cols_ok((#[trigger] self.indexes.entries()[i]).1.columns@, table_schema, *row),
+        ensures
+            // accepted => NO in-memory UNIQUE index of the table already holds the row's key (NULL-holding keys never collide)
+            res is Ok ==> forall|i: int| #![trigger self.indexes.entries()[i]] 0 <= i < self.indexes.entries().len()
+                ==> !refuses(self.indexes.entries()[i], table_name@, table_schema, *row, self.index_data.mem(self.indexes.entries()[i].0@)),
+            // refused => some UNIQUE index of the table with a NULL-free key for the row refused it: in memory it holds that key (a disk-backed one is not under contract)
+            res is Err ==> exists|i: int| #![trigger self.indexes.entries()[i]] 0 <= i < self.indexes.entries().len() && self.indexes.entries()[i].1.table_name@ == table_name@ && self.indexes.entries()[i].1.unique
+                && !key_has_null(key_of(self.indexes.entries()[i].1.columns@, table_schema, *row))
+                && (self.index_data.mem(self.indexes.entries()[i].0@) is Some ==> refuses(self.indexes.entries()[i], table_name@, table_schema, *row, self.index_data.mem(self.indexes.entries()[i].0@))),
+''')
 OBLIGATIONS['rebuild_indexes'] = ['post:every_in_memory_index_of_the_table_ends_as_the_mirror_of_the_rows__others_untouched', 'proof:loop_invariant_and_termination']
+OBLIGATIONS['check_unique_constraints_for_insert'] = ['post:accepted_iff_no_in_memory_unique_index_of_the_table_holds_the_rows_key', 'proof:loop_invariant_and_termination', 'safety:key_columns_exist']
 CANARIES = ['canary_insert']
 TRUSTED = [
     'R6b (elide): the key-building closures `|col| { .. }` and the `match index_data { .. }` step inside the loop bodies are replaced by calls - build_key (`metadata.columns.iter().map(closure).collect()`: ASSUMED one component per index column in definition order, each the closure applied to that column; the closure itself: unit I-maint key_insert / key_update_old / key_update_new) and DataMap::insert_step_at / update_step_at (external_body with the contracts PROVED for the lifted steps in unit I-maint, applied to the entry `get_mut(index_name)` finds - R12); located by the same token rule that lifts them there',
-    'external_body Registry (HashMap<String, IndexMetadata> as the list of its entries, names distinct, visited in list order - any order: len_, name_at, meta_at, get, names_for_table = `iter().filter(|(_, m)| m.table_name == table_name).map(|(n, _)| n.clone()).collect()` ASSUMED to return exactly the names registered for the table, each once), DataMap (contains_key, insert_step_at, update_step_at, rebuild_step_at; (HashMap<String, IndexData>: has = an entry exists, mem = its key -> positions map when held in memory); the disk-backed arm is opaque (mem = None)',
-    'external_body str_eq (`String == &str`), key_ne (`Vec<SqlValue> != Vec<SqlValue>`); key_part / col_ok uninterpreted here (defined in unit I-maint); SqlValue, Str, TableSchema opaque; Row / IndexColumn / IndexMetadata / IndexManager reduced to the fields read',
+    'external_body Registry (HashMap<String, IndexMetadata> as the list of its entries, names distinct, visited in list order - any order: len_, name_at, meta_at, get, names_for_table = `iter().filter(|(_, m)| m.table_name == table_name).map(|(n, _)| n.clone()).collect()` ASSUMED to return exactly the names registered for the table, each once), DataMap (contains_key, insert_step_at, update_step_at, rebuild_step_at, check_step_at; (HashMap<String, IndexData>: has = an entry exists, mem = its key -> positions map when held in memory); the disk-backed arm is opaque (mem = None)',
+    'external_body str_eq (`String == &str`), key_ne (`Vec<SqlValue> != Vec<SqlValue>`); key_part / col_ok uninterpreted here (defined in unit I-maint); SqlValue, Str, TableSchema, StorageError opaque; Row / IndexColumn / IndexMetadata / IndexManager reduced to the fields read',
     'precondition: every registered index has columns that exist in the schema and in the row (Option::expect in the closure panics otherwise): established by CREATE INDEX validation, not here',
+    'check_unique_constraints_for_insert: has_null (`key_values.contains(&SqlValue::Null)`, is_null uninterpreted); a refusal by a disk-backed index or a failed lock is allowed by the contract (Err only requires a UNIQUE index of the table with a NULL-free key)',
     'update_indexes_for_delete (same loop; DELETE rebuilds afterwards) and the manager-level rebuild_indexes / create_index (bulk build over BTreeMap; unit I-resolve covers the Operations-level callers) are not under contract here',
 ]
